@@ -407,8 +407,6 @@ Top:
 	return &n
 }
 
-var spaces = []byte{'\n'}
-
 func (p *Printer) appendTree(b []byte, n *node, offset, closes int) []byte {
 	if 0 < len(n.special) {
 		b = append(b, n.special...)
@@ -431,9 +429,6 @@ func (p *Printer) appendTree(b []byte, n *node, offset, closes int) []byte {
 		if off+n.elements[0].size+n.elements[1].size+t+1 <= int(p.RightMargin) {
 			off += n.elements[0].size + 1
 		}
-		if len(spaces)-1 < off {
-			spaces = append(spaces, bytes.Repeat([]byte{' '}, off-len(spaces)+1)...)
-		}
 		pos := offset + 1
 		for i, e := range n.elements {
 			t := 0
@@ -454,7 +449,12 @@ func (p *Printer) appendTree(b []byte, n *node, offset, closes int) []byte {
 					b = append(b, " .."...)
 					break
 				}
-				b = append(b, spaces[:off+1]...)
+				// A newline followed by off spaces. Built in place, a shared
+				// buffer grown on demand is not safe with more than one thread.
+				b = append(b, '\n')
+				for j := 0; j < off; j++ {
+					b = append(b, ' ')
+				}
 				b = p.appendTree(b, e, off, t)
 				pos = off + e.size + 1
 			}
